@@ -166,6 +166,9 @@ func c03Finder(run *Run, j *histJob) {
 		run.Fail("C03:panic", "the request worker panicked: "+r.Panicked, replay)
 		return
 	}
+	if newAfterTerminate(r) {
+		run.Fail("C03:attempt-after-terminate", "TerminateStream returned true, yet a new upstream attempt was started afterwards", replay)
+	}
 	if ri.Headers > 1 || ri.AfterEnd {
 		run.Fail("C03:two-replies", "the downstream sender was given a second reply (or calls after end of stream)", replay)
 	}
@@ -200,6 +203,20 @@ func c03Finder(run *Run, j *histJob) {
 	if (ri.Complete || r.Done) && (r.Gauge != 0 || r.Active != 0) && !(r.Done && !ri.Complete && !explained) {
 		run.Fail("C03:not-cleaned", fmt.Sprintf("exchange over but the stream is not cleaned: active gauge %+d, active streams %d", r.Gauge, r.Active), replay)
 	}
+}
+
+// after TerminateStream returned true (the filter was told the request is finished) no new upstream attempt may start
+func newAfterTerminate(r *Result) bool {
+	t := int64(-1)
+	for _, x := range r.Rec {
+		if x.Kind == "ev.end" && x.Aux == "delivered" && r.Spec.Events[x.K].Kind == "terminate" && t < 0 {
+			t = x.T
+		}
+		if x.Kind == "up.new" && t >= 0 && x.T > t {
+			return true
+		}
+	}
+	return false
 }
 
 // TerminateStream returned true in this run
